@@ -3,7 +3,12 @@
 (* datapoint.  Decision specification:                                        *)
 (*                                                                            *)
 (*  * storage-schemas rules <<priority, file position, pattern, retentions>>; *)
-(*    rule order = priority descending, then file order                       *)
+(*    the priority attribute is Absent (no `priority = N` line in the section)*)
+(*    or a natural number written out, INCLUDING an explicit 0; an absent     *)
+(*    priority IS priority 0 (Graphite/carbon: "priority ... defaults to 0";  *)
+(*    persister/whisper_schema.go: p := 0 unless the section has the key);    *)
+(*    rule order = priority descending, then file order -- absent and         *)
+(*    explicit 0 are the same priority, so only file order separates them     *)
 (*    (persister/whisper_schema.go sorts on priority<<32 - position);         *)
 (*  * Select(rules, s) = the first rule in that order whose pattern matches   *)
 (*    the series name AS GRAPHITE PRESENTS IT: the bare name for an untagged  *)
@@ -87,15 +92,28 @@ Matches(pat, s) ==
       [] pat.kind = "sub"  -> Contains(s, pat.lit)
 
 \* ------------------------------------------------------------------ rules
-(* a rule: pattern, priority (-1 = no priority line in the file = 0), retentions by file position:
-   rule at file position i has first retention Ret1[i] and second retention Ret2[i] seconds per point *)
+(* a rule: pattern, priority attribute, retentions by file position:
+   rule at file position i has first retention Ret1[i] and second retention Ret2[i] seconds per point.
+   The priority attribute prio is Absent (the section has no `priority = N` line) or a natural number
+   N that the section spells out as `priority = N` -- N = 0 included.  Prio(r) is the priority the
+   rule HAS: an absent attribute means priority 0, exactly like an explicit `priority = 0`. *)
 Ret1 == <<1, 10, 60, 300>>
 Ret2 == <<600, 3600, 7200, 86400>>
-Prio(r) == IF r.prio < 0 THEN 0 ELSE r.prio
+Absent == -1
+Prio(r) == IF r.prio = Absent THEN 0 ELSE r.prio
+
+(* deviation absent_priority_sorts_first: only a rule WITH a priority line gets the position-adjusted
+   sort key prio * Shift - (file position, from 0); a rule without one gets the bare key 0, ties keep
+   file order (stable sort).  An explicit `priority = 0` at file position > 0 then has a negative key
+   and sorts after every rule that has no priority line, wherever that rule is in the file. *)
+Shift == 1024     \* stands for 2^32 (TLC integers are 32 bit): any factor larger than the number of rules
+DevKey(rules, i) == IF rules[i].prio = Absent THEN 0 ELSE rules[i].prio * Shift - (i - 1)
 
 Before(rules, i, j) ==      \* rule i is consulted before rule j
     IF Dev = "prio_reversed" THEN Prio(rules[i]) < Prio(rules[j]) \/ (Prio(rules[i]) = Prio(rules[j]) /\ i < j)
     ELSE IF Dev = "file_order_only" THEN i < j
+    ELSE IF Dev = "absent_priority_sorts_first" THEN
+        DevKey(rules, i) > DevKey(rules, j) \/ (DevKey(rules, i) = DevKey(rules, j) /\ i < j)
     ELSE Prio(rules[i]) > Prio(rules[j]) \/ (Prio(rules[i]) = Prio(rules[j]) /\ i < j)
 
 Select(rules, s) ==
@@ -135,12 +153,15 @@ PickleOut(line) == IF TsOK(line) THEN [skipped |-> FALSE, name |-> Token(line), 
 
 \* ------------------------------------------------------------------ enumeration
 VARIABLE rules
-Spec0 == [pat |-> Default, prio |-> -1]
-Specific == [pat : {AllPats[i] : i \in PatPool}, prio : {-1, 1, 2}]
+(* priority attributes of the enumerated rules: absent, explicit 0, and two positive values -- every
+   mix of them at every file position, over patterns that overlap (PatPool) and the default rule *)
+PrioAttrs == {Absent, 0, 1, 2}
+DefaultPrioAttrs == {Absent, 0, 1}
+Specific == [pat : {AllPats[i] : i \in PatPool}, prio : PrioAttrs]
 Lists(k) == [1..k -> Specific]
 InsertAt(s, i, e) == SubSeq(s, 1, i - 1) \o <<e>> \o SubSeq(s, i, Len(s))
 Init ==
-    \E k \in 0..MaxSpecific : \E sp \in Lists(k) : \E at \in 1..(k + 1) : \E dp \in {-1, 1} :
+    \E k \in 0..MaxSpecific : \E sp \in Lists(k) : \E at \in 1..(k + 1) : \E dp \in DefaultPrioAttrs :
         rules = InsertAt(sp, at, [pat |-> Default, prio |-> dp])
 Next == UNCHANGED rules
 Spec == Init /\ [][Next]_rules
@@ -171,6 +192,15 @@ SelectIsFirst ==
             IN  /\ Matches(rules[k].pat, s)
                 /\ \A j \in DOMAIN rules : (Matches(rules[j].pat, s) /\ j # k) =>
                        (Prio(rules[j]) < Prio(rules[k]) \/ (Prio(rules[j]) = Prio(rules[k]) /\ j > k))
+(* absent and explicit 0 are one priority: replacing every explicit `priority = 0` by no priority line
+   (and the other way round) selects the same rule for every line *)
+NoPrioLine(rs) == [i \in DOMAIN rs |-> [rs[i] EXCEPT !.prio = IF rs[i].prio = 0 THEN Absent ELSE rs[i].prio]]
+ZeroPrioLine(rs) == [i \in DOMAIN rs |-> [rs[i] EXCEPT !.prio = IF rs[i].prio = Absent THEN 0 ELSE rs[i].prio]]
+AbsentIsZero ==
+    \A i \in DOMAIN LineSeq : Representable(LineSeq[i]) =>
+        LET s == Presented(LineSeq[i]) IN
+        /\ Select(rules, s) = Select(NoPrioLine(rules), s)
+        /\ Select(rules, s) = Select(ZeroPrioLine(rules), s)
 (* an untagged series is presented without ';' : ^lit$ selects it, ';' does not *)
 UntaggedPresentation ==
     \A i \in DOMAIN LineSeq :
